@@ -14,13 +14,13 @@ _c06_sub("level_text",
     " Hence favor_cpu_equiv_basic/_adv/_h9/_real_kinds with no hypothesis about the hasher; job_index_basic/_adv/_h9: with the job side set_custom_dictionary_with_optional_precomputed_hasher modelled (early return at quality < 2 / empty prefix, truncation to the last 2^lgwin - 16 bytes DISCARDING the handed index, StoreLookaheadThenStore otherwise) the index the job's encoder holds is the same with favor on and off for EVERY prefix length, quality >= 2, every job index, thread count and input; debug_assert_holds_basic: the debug-build assertion orig_hasher == self.hasher_ cannot fire; favor_truncated_differs + truncated_job_uses_own_index: where the two indexes do differ (truncated prefix) the job provably uses its own.")
 _c06_sub("level_note",
     "The hasher is abstract in favor_cpu_equiv: additivity/locality of the real BulkStoreRange implementations is C19's subject.",
-    "favor_cpu_equiv is instantiated with the concrete hasher models of BV/Model/Hasher.lean (C19) for every kind ChooseHasher selects at quality 2..9; the favor loop (BV/Lemmas/MultiFavor.lean prebuilt), the job's own indexing (selfbuilt) and the job-side choice (BV/Lemmas/MultiFavorKinds.lean jobIndex) are tied to the code by stage `favor`: the favor loop replayed on the REAL hashers exactly as CompressMulti does (real get_range through its hook, StoreLookahead, stored_end, BulkStoreRange, clone_with_alloc), the real job encoder after set_custom_dictionary(_with_optional_precomputed_hasher) with and without the shared index - stored_end and all four index tables compared cell by cell (digest over every non-zero cell of num/buckets) with the model's, ~290 cases per quick run over all nine kinds, short ranges, truncated prefixes, empty prefixes."
+    "favor_cpu_equiv is instantiated with the concrete hasher models of BV/Model/Hasher.lean (C19) for every kind ChooseHasher selects at quality 2..9; the favor loop (BV/Lemmas/MultiFavor.lean prebuilt), the job's own indexing (selfbuilt) and the job-side choice (BV/Lemmas/MultiFavorKinds.lean jobIndex) are tied to the code by stage `favor`: the favor loop replayed on the REAL hashers exactly as CompressMulti does (real get_range through its hook, StoreLookahead, stored_end, BulkStoreRange, clone_with_alloc), the real job encoder after set_custom_dictionary(_with_optional_precomputed_hasher) with and without the shared index - stored_end and all four index tables compared cell by cell (digest over every non-zero cell of num/buckets) with the model's, ~270 index lines per quick run (~2.5k thorough) over all nine modelled kinds, short ranges, truncated prefixes, empty prefixes."
     " H10 (quality 10/11): Store and the empty forest are opaque as in C19; favor_cpu_equiv_h10 proves additivity outright and reduces locality to ONE statement about the opaque Store (at position ix it reads data[.. ix + 128) only), not checked against hash_to_binary_tree.rs other than through its consequence: stage favor runs 32 H10 cases per quick run (quality 10/11, ranges around the 128-byte look-ahead, truncated prefixes) through the real-code oracles shared == own / job-on == job-off. Not modelled: that hasher_setup picks the same KIND for the shared index and inside the job (ChooseHasher reads quality, lgwin, size_hint, q9_5 - the stage compares the kinds of the two real indexes on every case, signature favor:kind-differs); that the quality 0/1 fragment compressors never read hasher_ (there the job keeps whatever it was handed). Index equality => byte equality still needs PURITY.")
 PROPS["C06"]["assumptions"] = [a for a in PROPS["C06"]["assumptions"] if not a.startswith("favor_cpu_equiv: Additive and Local are hypotheses")] + [
     "favor_cpu_equiv_basic/_adv/_h9: no hypothesis about the hasher; P.Ok (the hash value fits u32 / the key indexes the tables) is proved for the real kinds (C19 concrete_kinds_ok); AdvHasher additionally j + 1 <= t and n <= 2^64 (positions are usize). The theorems are about index equality (tables cell by cell, or both builds panic); the consequence for bytes needs PURITY. H10 (quality 10/11): favor_cpu_equiv_h10 assumes that the opaque Store at position ix reads data[.. ix + 128) only",
 ]
 PROPS["C06"]["rule"] = PROPS["C06"]["rule"] + (
-    " Stage favor: case = quality 0..9 x lgwin 10..24 x size_hint {0, 2^20, 2^22+1} x 2..16 threads x job index x input (5 generators; classes: ranges shorter than the look-ahead, prefixes truncated to the window (lgwin 10..12), general, big-table kinds H54/H6/H9);"
+    " Stage favor: case = quality 0..11 x lgwin 10..24 x size_hint {0, 2^20, 2^22+1} x 2..16 threads x job index x input (5 generators; classes: ranges shorter than the look-ahead, prefixes truncated to the window (lgwin 10..12), general, big-table kinds H54/H6/H9, H10 at quality 10/11 - oracles only);"
     " oracles on the real hashers: quality >= 2 => the job's index with the shared index handed in == the index it builds itself (PartialEq of UnionHasher) for every prefix length; untruncated non-empty prefix => shared index == own index; same hasher kind on both sides; no panic;"
     " correspondence: stored_end and the four index tables against prebuilt / selfbuilt / jobIndex of the Lean model; non-trivial = quality >= 2 and a non-empty shared index.")
 PROPS["C06"]["trusted_base"] = PROPS["C06"]["trusted_base"] + [
@@ -63,3 +63,6 @@ PROPS["C06"]["technique"] = PROPS["C06"]["technique"].replace(
     "abstract-hasher equivalence with counterexamples",
     "abstract-hasher equivalence with counterexamples, instantiated with the concrete hasher models of C19 (additivity/locality/no-panic proved per kind), PURITY reduced to a function of the job's inputs") + (
     " + stage favor: the favor loop and the job-side dictionary call replayed on the real hashers (tables compared cell by cell with the model) and fresh-encoder jobs of the real compress_part against the stream-machine job model")
+
+PROPS["C06"]["level_text"] = PROPS["C06"]["level_text"] + (
+    " job_dictionary_indexing_never_panics: likewise the index a job builds itself in set_custom_dictionary (StoreLookaheadThenStore over the kept part of its prefix, truncated or not) is `some` table(s) for every kind of quality 2..9 and every prefix length <= input length - so whichever index the job's encoder ends up holding, building it did not panic.")
